@@ -29,6 +29,56 @@ CHECKS = {
         ref="4/C03"),
 }
 
+CHECKS.update({
+    "C05": dict(
+        technique="Lean 4 proof over R on formulas regenerated from sn.py by a translator + Float correspondence",
+        text="Theorems over the reals about the branch formulas generated from qats/fatigue/sn.py on every run: both branches give "
+             "nswitch at the transition stress, n is continuous and strictly decreasing on (0,inf), upper branch iff n <= nswitch, "
+             "fatigue_strength and n are mutual inverses, thickness factor is 1 at/below t_ref, (t/t_ref)^k above and acts as a stress "
+             "multiplier, array = map of scalar. An edit of a formula is re-proved (or not) by the kernel; the branch skeleton is tied "
+             "by Float correspondence with SNCurve.",
+        note=TB + "Translator (harness/translate.py) trusted, validated by executing each generated definition against the source function.",
+        ref="4/C05"),
+    "C06": dict(
+        technique="Lean 4 proof (list sums over R; Weibull integral via Mathlib's Gamma integral) + translator + Float correspondence",
+        text="Theorems: Miner sum additive over any split, permutation invariant, linear in counts and duration, scf == scaling the "
+             "stress ranges; single-slope Weibull closed form equals v0*td*integral of f_W/N (Mathlib integral_rpow_mul_exp_neg_mul_rpow); "
+             "Goodman-Haigh zero-mean / formula / tensile-enlarges / unit-free. Bilinear closed form and the Riemann-sum limit are "
+             "measured (partial).",
+        note=TB + "Bilinear closed form: algebra generated and executed with scipy's incomplete gamma values; not proved (no incomplete gamma in Mathlib).",
+        ref="4/C06"),
+    "C15": dict(
+        technique="Lean 4 proof over R on generated formulas (monotonicity, inverses, HasDerivAt, moment integral) + Float correspondence",
+        text="Theorems for Weibull / Gumbel / GumbelMin formulas generated from the source: cdf monotone in [0,1), invcdf and cdf mutual "
+             "inverses, pdf = derivative of cdf (HasDerivAt), Weibull raw moments = Gamma(1+k/c) as integrals of the density and the "
+             "reported mean/std/skew/kurt as their textbook combinations, Gumbel median/mode, GumbelMin = mirror of Gumbel for every "
+             "method, invcdf mask skeleton, plotting positions in (0,1) increasing. Gumbel moment constants measured (partial).",
+        note=TB + "Gumbel mean/std/skew/kurt constants validated by quadrature only.",
+        ref="4/C15"),
+    "C16": dict(
+        technique="Lean 4 proof over R (hockey-stick identity for PWM weights, algebra of generated estimators, estimating equations) + captured-callable correspondence",
+        text="Theorems: M_j(ax+b) = a M_j + b/(j+1) for both PWM weight families; Weibull pwm/pwm2, Gumbel pwm/msm equivariant; Gumbel "
+             "and Weibull msm reproduce sample moments; roots of the Gumbel likelihood equations and least-squares residuals map "
+             "under x -> ax+b; GumbelMin msm/mle/lse are mirrors of Gumbel on the negated sample. The callables handed to "
+             "fsolve/leastsq are captured and compared with the model's equations. Solver convergence and consistency measured.",
+        note=TB + "fsolve/leastsq/brentq assumed to return a root/minimiser of the function they are given (residual checked at the result).",
+        ref="4/C16"),
+    "C17": dict(
+        technique="Lean 4 proof over R on generated formulas + Float correspondence + metamorphic search on TimeSeries.stats",
+        text="Theorems: gloc = Weibull invcdf(1-1/n), gscale = 1/(n pdf(gloc)), fit_from_weibull_parameters == weibull2gumbel. The "
+             "summary's consistency, affine equivariance and minima mirror are checked on the implementation (partial).",
+        note=TB + "Summary composition (pipeline + maxima + pwm) not restated as one theorem.",
+        ref="4/C17"),
+    "C20": dict(
+        technique="Lean 4 proof (rotation matrix over R on generated entries; numpy.gradient model over any ordered field) + Float/Rat correspondence",
+        text="Theorems: generated matrix = Rz*Ry*Rx, orthogonal, transform is rigid, zero rotation is an offset, deg == rad; gradient "
+             "keeps shape, is linear, exact for affine signals everywhere and for quadratics at interior samples on any strictly "
+             "increasing grid, acceleration exact from the third to third-last sample, scalar step = uniform grid. Tied by Float "
+             "correspondence of transform_motion and exact Rat correspondence of velocity/acceleration.",
+        note=TB + "np.gradient's documented second-order interior formula is modelled.",
+        ref="4/C20"),
+})
+
 NOT_YET = {}
 
 PROPS = [json.loads(l) for l in open(os.path.join(HERE, "properties.jsonl"))]
@@ -54,7 +104,7 @@ def main():
             na.append(dict(property_id=pid, reason=NOT_YET.get(pid, "check not built yet in this round (designed in DESIGN.md section 4; the Lean technique applies)")))
     man = dict(
         version=1,
-        setup_cmd="cd lean && lake build Qats Qats.Driver",
+        setup_cmd="cd lean && lake build Qats",
         hooks=dict(guard="QATS_VERIF", enable="no source hooks: checks call the real code in-process (./check sets QATS_VERIF=1, unused by /repo)",
                    baseline_off_cmd="cd /repo && /venv/bin/python -m pytest -ra -q -p no:cacheprovider --timeout=900 --continue-on-collection-errors",
                    source_commits=[], add_only=True),
